@@ -2916,9 +2916,7 @@ void fp54_back_cyc(fp54_t c, const fp54_t a) {
 		fp9_set_dig(t2, 1);
 		fp9_copy_sec(t1, t2, f);
 
-		/* t1 = 1/(4 * g2). */
-		fp9_dbl(t1, a[1][0]);
-		fp9_dbl(t1, t1);
+		/* t1 = 1/g3 or 1/(4*g2), depending on the above. */
 		fp9_inv(t1, t1);
 		/* c_1 = g1. */
 		fp9_mul(c[0][1], t0, t1);
